@@ -171,6 +171,16 @@ def r4(ctx):
         ctx.require(keep, w, 'count-keys-unchanged', 'the (word, count) pairs are sent as counted (the key is only converted to an owned string)',
                     'the counted words are transformed after counting (`%s`) and collected into a map: words that become equal overwrite each other and their '
                     'counts are lost' % show_in(w, segs[0].elem)[:120], send.span)
+    # the corpus reader: an unreadable line is skipped, it does not end the file (map_while / take_while / scan on `lines()` stop at the
+    # first Err and silently drop the rest of the file from the counts)
+    from rules.common import closures_in as _cl
+    for x in [b] + _cl(ctx, b):
+        for t in x.calls(r'BufRead::lines$'):
+            users = [u for u in x.terms('call') if any(isinstance(y, tuple) and y and y[0] == 'call' and y[1].endswith('BufRead::lines') for a_ in u.args for y in walk(sym(x, a_)))]
+            cut = [u for u in users if re.search(r'::(map_while|take_while|scan|skip_while)$', u.callee_res() or '')]
+            ctx.require(not cut, x, 'corpus-not-truncated', 'the line reader of the corpus has no adaptor that ends at the first unreadable line',
+                        'the corpus lines are read through `%s` (line %d): the first line that cannot be decoded ends the file, the rest of it is not counted' % (
+                            (cut[0].callee_res() or '').rsplit('::', 1)[-1] if cut else '', cut[0].span['line'] if cut else 0), cut[0].span if cut else t.span)
     # reducer: fold closure adds counts
     # reducer (a fold closure over the receiver, or a loop over it in train_bpe itself): per key, counts are only added
     from rules.common import closures_in
@@ -241,6 +251,30 @@ def r5(ctx):
         elif word == 'old':
             ok = any(pol is True and match(t, ('bin', 'Lt', i, ('bin', 'Sub', Call('Vec::len', ANY), Const(2)))) for t, pol in atoms)
             ctx.require(ok, b, 'guard|old-next', 'old next pair only if i < len - 2', None, s.span)
+            # .. and not when the next two symbols are another occurrence of the merged pair (old[i+2] == first && i < len-3 && old[i+3] == second): that
+            # occurrence decrements the pair between them itself; counting it twice drives the per-word occurrence count to 0 while an occurrence
+            # remains, replace_pair then skips the word, and two later merges produce the same bytes (a hole in the id range)
+            from analysis.sym import edge_guards
+            i2 = ('bin', 'Add', i, Const(2))
+            i3 = ('bin', 'Add', i, Const(3))
+            esc = []
+            for g in edge_guards(b):
+                t_, pol_ = g.atom()
+                c_ = core(t_)
+                if pol_ is None or c_[0] != 'bin':
+                    continue
+                ne = (c_[1] == 'Ne' and pol_) or (c_[1] == 'Eq' and not pol_)
+                ge = (c_[1] == 'Ge' and pol_) or (c_[1] == 'Lt' and not pol_)
+                if ne and (has(c_, ('index', ANY, i2)) or has(c_, ('index', ANY, i3))):
+                    esc.append((g.block, g.target))
+                elif ge and match(c_[2], i) and match(core(c_[3]), ('bin', 'Sub', Call('Vec::len', ANY), Const(3))):
+                    esc.append((g.block, g.target))
+            lt = [g for g in edge_guards(b) if g.atom()[1] is True and match(core(g.atom()[0]), ('bin', 'Lt', i, ('bin', 'Sub', Call('Vec::len', ANY), Const(2)))) and
+                  cfg.edge_dominates(b, (g.block, g.target), s.bb)]
+            ok3 = bool(lt) and bool(esc) and cfg.must_pass(b, lt[0].target, s.bb, via_edges=esc)
+            ctx.require(ok3, b, 'guard|old-next-overlap', 'old next pair is skipped when the next two symbols are another occurrence of the merged pair',
+                        'the old-word next pair is decremented even when it lies between two adjacent occurrences of the merged pair (`a b a b`): it is decremented '
+                        'twice, its per-word count reaches 0 although an occurrence remains, and the word is skipped when that pair is merged later', s.span)
         else:
             ok1 = any(pol is True and match(t, ('bin', 'Lt', i, ('bin', 'Sub', Call('Vec::len', ANY), Const(1)))) for t, pol in atoms)
             ok2 = any(pol is True and t[0] == 'bin' and t[1] == 'Ne' and has(t, ('bin', 'Add', i, Const(1))) for t, pol in atoms) or \
@@ -437,3 +471,21 @@ def r8(ctx):
         v = peel(simplify(symbolizer(r).rvalue(st[0].rv, 0, ())))
         ok = v[0] == 'agg' and v[1] == 'tuple' and len(v[3]) == 2 and match(core(v[3][0]), NEW) and match(core(v[3][1]), FREQ)
     ctx.require(ok or (swapped and not st), r, 'vocab-update', 'vocab[idx] := (replace_pair_in_word(word, pair), same freq)', None, st[0].span if st else None)
+
+
+@rule('C19', 'R-C19-9', 'prerequisite (the corpus is counted in normal form)',
+      'unicode::normalize, which train_bpe applies to every line when a normalisation is configured, always normalises (R-C20-10 re-evaluated)')
+def r9(ctx):
+    from rules.c20 import normalize_total
+    normalize_total(ctx)
+
+
+@rule('C19', 'R-C19-10', 'prerequisite (the corpus is counted as cleaned text over one definition of "character")',
+      'text::clean, which train_bpe applies to every line before counting, keeps every non-whitespace character in order and collapses whitespace '
+      'runs to one space (R-C11-1, R-C11-2 re-evaluated), over the shared CharString segmentation (R-C11-6): a cleaner that drops or reorders '
+      'characters makes the counted pairs differ from the pairs of the corpus')
+def r10(ctx):
+    from rules import c11
+    c11.r1(ctx)
+    c11.r2(ctx)
+    c11.charstring_primitive(ctx)
